@@ -1,4 +1,5 @@
 import ArgoVerif.Props.SchedCommon
+import ArgoVerif.Gen.Consts
 /-
 Props.C12 — work-unit lifecycle: the observable state follows the state machine; exit / cancel terminate; a unit is
 freed once; a terminated named unit can be revived and runs once more.
@@ -120,5 +121,10 @@ example :
 example :
     (machine.run init [.create 1 0, .push 0 1, .reqSet 1 .cancel, .pop 7 0 1, .terminate 1, .setSt 1 .terminated]).map
         (fun s => decide (s.cancelled 1 = true ∧ s.starts 1 = 0 ∧ s.loc 1 = .done)) = some true := by decide
+
+
+/-! ## widths of the counters modelled as unbounded numbers (generated from the headers on every run) -/
+/-- the request word of a work unit (JOIN / CANCEL / MIGRATE bits) is 4 bytes wide in this tree: the unbounded model agrees with the C field below 2^31 -/
+example : ArgoVerif.Gen.Consts.bytesThreadRequest = 4 := by decide
 
 end ArgoVerif.Props.C12
